@@ -11,6 +11,13 @@ const (
 	VerifSiteFindConflict
 	VerifSiteFieldsAndFragment
 	VerifSiteBetweenFragments
+	// graph rules / ValidationContext helpers (C19)
+	VerifSiteFragmentSpreadsStep   // FragmentSpreads: one per popped selection set and one per selection scanned
+	VerifSiteRRFPop                // RecursivelyReferencedFragments: one per popped node
+	VerifSiteRRFSpread             // RecursivelyReferencedFragments: one per spread looked at
+	VerifSiteDetectCycleCall       // NoFragmentCycles: calls of detectCycleRecursive
+	VerifSiteDetectCycleSpread     // NoFragmentCycles: iterations of the loop over spreadNodes
+	VerifSiteVariableUsagesCompute // VariableUsages: traversals actually made (cache misses)
 	verifSiteCount
 )
 
